@@ -85,6 +85,7 @@ TRANSLATORS = {
     "GenForest": "gen_forest",
     "GenProbStruct": "gen_probstruct",
     "GenPiStep": "gen_pistep",
+    "GenMatrices": "gen_matrices",
 }
 
 
